@@ -247,6 +247,35 @@ def main(argv):
                                 {"scenario": dict(sc, steps=[{kk: vv for kk, vv in st.items() if not kk.startswith("_")}]), "observed": got, "expected": want},
                                 key="v3-mismatch-delivered:" + st["_name"].split(" ")[0] if got.startswith("RET") else "v3-outcome:" + got)
 
+    # ---- a session that discovers its engine id, whose first discovery probe is lost and whose entry is then retried: afterwards
+    # it is the CONFIGURED user's session - a reply naming the placeholder user "" (right ids) is skipped, the real one delivered
+    report = {"pdu_tag": 0xA8, "mac": "absent", "encrypt": "no", "flags": 0}
+    dsc = []
+    for mode in ("sync", "async"):
+        for auth in (None, ["md5", 0, b"authpass77".hex()]):
+            steps = [{"op": "enter", "replies": [[]]}, {"op": "enter", "replies": [[report]], "default_reply": report}]
+            for k in range(3):
+                steps.append({"op": "get", "args": ["1.3.6.1.9.%d" % k],
+                              "replies": [[{"vbs": value_vb(700 + k).hex(), "user": "", "mac": "absent", "flags": 0}, {"vbs": value_vb(k).hex()}]]})
+            dsc.append({"version": "v3", "mode": mode, "timeout": 0.25, "steps": steps,
+                        "v3": {"user": "monitor", "auth": auth, "priv": None, "engine_id": None, "agent_engine_id": "80001f8880a1b2c3d4", "boots": 1, "time": 1}})
+    resd, logd = vf.run_api_worker("C04", {"scenarios": dsc})
+    if resd is None:
+        c.errors.append("API worker failed: " + logd[-1500:])
+    else:
+        for sc, rec in zip(dsc, resd["records"]):
+            if "driver_error" in rec:
+                c.errors.append("API driver error: " + rec["driver_error"])
+                continue
+            for k, out in enumerate(rec["steps"][2:]):
+                c.count(("v3-discovered-lost-probe", sc["mode"], bool(sc["v3"]["auth"]), k), True)
+                got = ("RET " + out["value"]) if out["kind"] == "RET" else out["exc"]
+                if got != "RET int:%d" % (1000 + k):
+                    c.violation("v3/%s session of user 'monitor' (engine id discovered, first probe lost, entry retried): a reply naming user '' %s; the call gave %s, expected RET int:%d"
+                                % (sc["mode"], "was delivered" if got == "RET int:%d" % (1700 + k) else "disturbed the wait", got, 1000 + k),
+                                {"scenario": sc, "call": k, "observed": got}, key="v3-placeholder-user-delivered" if got.startswith("RET int:17") else "v3-outcome:" + got)
+                    break
+
     # ---- model correspondence on synthetic arrival lists (the receive loop itself), through the codec harness decoders
     lines, meta = [], []
     for _ in range(20000 if thorough else 4000):
